@@ -75,34 +75,44 @@ pub struct Variant {
     /// what the finished builder produces (a builder that caches a size, or any other interior
     /// state, across further configuration calls is exposed by this flavour)
     pub probe: bool,
+    /// call every scalar setter twice: first with another (legal or illegal) value, then with the configured
+    /// one - a repeated setter keeps the last value
+    pub reset: bool,
 }
 
 impl Variant {
-    pub const PLAIN: Variant = Variant { owned: false, wrap: Wrap::None, probe: false };
-    pub const PROBED: Variant = Variant { owned: false, wrap: Wrap::None, probe: true };
+    pub const PLAIN: Variant = Variant { owned: false, wrap: Wrap::None, probe: false, reset: false };
+    pub const PROBED: Variant = Variant { owned: false, wrap: Wrap::None, probe: true, reset: false };
+    pub const RESET: Variant = Variant { owned: false, wrap: Wrap::None, probe: false, reset: true };
     pub fn new(owned: bool, wrap: Wrap) -> Variant {
-        Variant { owned, wrap, probe: false }
+        Variant { owned, wrap, probe: false, reset: false }
     }
-    /// the eight unprobed flavours, then the two probed ones (borrowed / owned, bare builder)
+    /// the eight unprobed flavours, the two probed ones (borrowed / owned, bare builder) and the re-set one
     pub fn all() -> Vec<Variant> {
         let mut v = Vec::new();
         for owned in [false, true] {
             for wrap in WRAPS {
-                v.push(Variant { owned, wrap, probe: false });
+                v.push(Variant { owned, wrap, probe: false, reset: false });
             }
         }
-        v.push(Variant { owned: false, wrap: Wrap::None, probe: true });
-        v.push(Variant { owned: true, wrap: Wrap::None, probe: true });
+        v.push(Variant { owned: false, wrap: Wrap::None, probe: true, reset: false });
+        v.push(Variant { owned: true, wrap: Wrap::None, probe: true, reset: false });
+        v.push(Variant { owned: false, wrap: Wrap::None, probe: false, reset: true });
         v
     }
-    /// every combination: owned x wrap x probe (16)
+    /// every combination owned x wrap x probe (16), then four with every scalar setter called twice
     pub fn full() -> Vec<Variant> {
         let mut v = Vec::new();
         for probe in [false, true] {
             for owned in [false, true] {
                 for wrap in WRAPS {
-                    v.push(Variant { owned, wrap, probe });
+                    v.push(Variant { owned, wrap, probe, reset: false });
                 }
+            }
+        }
+        for owned in [false, true] {
+            for (wrap, probe) in [(Wrap::None, false), (Wrap::Compound1, true)] {
+                v.push(Variant { owned, wrap, probe, reset: true });
             }
         }
         v
@@ -305,23 +315,38 @@ where
 pub fn with_writer(p: &Pkt, var: Variant, f: &mut dyn FnMut(&dyn RtcpPacketWriter)) {
     let wrap = var.wrap;
     let on = var.probe;
+    let rs = var.reset;
+    // the other value a re-set flavour gives a setter first
+    let other_pad = |p: u8| if p == 8 { 5u8 } else { 8u8 };
     match p {
         Pkt::Sr { ssrc, ntp, rtp, pc, oc, blocks, pad } => {
-            let mut b = ch!(on; SenderReport::builder(*ssrc), .ntp_timestamp(*ntp), .rtp_timestamp(*rtp), .packet_count(*pc), .octet_count(*oc), .padding(*pad));
+            let mut b = pr(SenderReport::builder(*ssrc), on);
+            if rs {
+                b = ch!(on; b, .padding(other_pad(*pad)), .ntp_timestamp(!*ntp), .rtp_timestamp(!*rtp), .packet_count(!*pc), .octet_count(!*oc));
+            }
+            let mut b = ch!(on; b, .ntp_timestamp(*ntp), .rtp_timestamp(*rtp), .packet_count(*pc), .octet_count(*oc), .padding(*pad));
             for (i, rb) in blocks.iter().enumerate() {
                 b = pr(b.add_report_block(rb_builder(rb)), on && probe_at(i, blocks.len()));
             }
             finish(b, wrap, f)
         }
         Pkt::Rr { ssrc, blocks, pad } => {
-            let mut b = ch!(on; ReceiverReport::builder(*ssrc), .padding(*pad));
+            let mut b = pr(ReceiverReport::builder(*ssrc), on);
+            if rs {
+                b = pr(b.padding(other_pad(*pad)), on);
+            }
+            let mut b = pr(b.padding(*pad), on);
             for (i, rb) in blocks.iter().enumerate() {
                 b = pr(b.add_report_block(rb_builder(rb)), on && probe_at(i, blocks.len()));
             }
             finish(b, wrap, f)
         }
         Pkt::Sdes { chunks, pad } => {
-            let mut b = ch!(on; Sdes::builder(), .padding(*pad));
+            let mut b = pr(Sdes::builder(), on);
+            if rs {
+                b = pr(b.padding(other_pad(*pad)), on);
+            }
+            let mut b = pr(b.padding(*pad), on);
             for (i, c) in chunks.iter().enumerate() {
                 let on = on && probe_at(i, chunks.len());
                 b = pr(b.add_chunk(chunk_builder_p(c, var.owned, on)), on);
@@ -329,7 +354,11 @@ pub fn with_writer(p: &Pkt, var: Variant, f: &mut dyn FnMut(&dyn RtcpPacketWrite
             finish(b, wrap, f)
         }
         Pkt::Bye { ssrcs, reason, pad } => {
-            let mut b = ch!(on; Bye::builder(), .padding(*pad));
+            let mut b = pr(Bye::builder(), on);
+            if rs {
+                b = pr(b.padding(other_pad(*pad)), on);
+            }
+            let mut b = pr(b.padding(*pad), on);
             for (i, s) in ssrcs.iter().enumerate() {
                 b = pr(b.add_source(*s), on && probe_at(i, ssrcs.len()));
             }
@@ -344,11 +373,19 @@ pub fn with_writer(p: &Pkt, var: Variant, f: &mut dyn FnMut(&dyn RtcpPacketWrite
             }
         }
         Pkt::App { ssrc, subtype, name, data, pad } => {
-            let b = ch!(on; App::builder(*ssrc, name.as_str()), .subtype(*subtype), .data(&data[..]), .padding(*pad));
+            let mut b = pr(App::builder(*ssrc, name.as_str()), on);
+            if rs {
+                b = ch!(on; b, .padding(other_pad(*pad)), .data(&[9u8, 9, 9][..]), .subtype(subtype.wrapping_add(7)));
+            }
+            let b = ch!(on; b, .subtype(*subtype), .data(&data[..]), .padding(*pad));
             finish(b, wrap, f)
         }
         Pkt::Unknown { pt, count, data, pad } => {
-            let b = ch!(on; Unknown::builder(*pt, &data[..]), .count(*count), .padding(*pad));
+            let mut b = pr(Unknown::builder(*pt, &data[..]), on);
+            if rs {
+                b = ch!(on; b, .padding(other_pad(*pad)), .count(count.wrapping_add(7)), .padding(12));
+            }
+            let b = ch!(on; b, .count(*count), .padding(*pad));
             finish(b, wrap, f)
         }
         Pkt::Fb { kind, sender, media, fci, pad } => {
@@ -356,8 +393,20 @@ pub fn with_writer(p: &Pkt, var: Variant, f: &mut dyn FnMut(&dyn RtcpPacketWrite
             macro_rules! fbb {
                 ($ctor:ident, $fci:expr) => {
                     match kind {
-                        Kind::Transport => finish(ch!(on; TransportFeedback::$ctor($fci), .sender_ssrc(sender), .media_ssrc(media), .padding(pad)), wrap, f),
-                        Kind::Payload => finish(ch!(on; PayloadFeedback::$ctor($fci), .sender_ssrc(sender), .media_ssrc(media), .padding(pad)), wrap, f),
+                        Kind::Transport => {
+                            let mut b = pr(TransportFeedback::$ctor($fci), on);
+                            if rs {
+                                b = ch!(on; b, .padding(other_pad(pad)), .sender_ssrc(!sender), .media_ssrc(!media));
+                            }
+                            finish(ch!(on; b, .sender_ssrc(sender), .media_ssrc(media), .padding(pad)), wrap, f)
+                        }
+                        Kind::Payload => {
+                            let mut b = pr(PayloadFeedback::$ctor($fci), on);
+                            if rs {
+                                b = ch!(on; b, .padding(other_pad(pad)), .sender_ssrc(!sender), .media_ssrc(!media));
+                            }
+                            finish(ch!(on; b, .sender_ssrc(sender), .media_ssrc(media), .padding(pad)), wrap, f)
+                        }
                     }
                 };
             }
@@ -366,7 +415,13 @@ pub fn with_writer(p: &Pkt, var: Variant, f: &mut dyn FnMut(&dyn RtcpPacketWrite
                     Fci::Nack(v) => fbb!(builder_owned, nack_builder_p(v, on)),
                     Fci::Fir(v) => fbb!(builder_owned, fir_builder_p(v, on)),
                     Fci::Sli(v) => fbb!(builder_owned, sli_builder_p(v, on)),
-                    Fci::Rpsi { pt, data, overrun } => fbb!(builder_owned, ch!(on; Rpsi::builder(), .payload_type(*pt), .native_data_owned(&data[..], *overrun))),
+                    Fci::Rpsi { pt, data, overrun } => {
+                        let mut r = pr(Rpsi::builder(), on);
+                        if rs {
+                            r = ch!(on; r, .native_data_owned(&[0xEEu8, 0xEE, 0xEE][..], 9), .payload_type(pt.wrapping_add(77)));
+                        }
+                        fbb!(builder_owned, ch!(on; r, .payload_type(*pt), .native_data_owned(&data[..], *overrun)))
+                    }
                     Fci::Pli => fbb!(builder_owned, pr(Pli::builder(), on)),
                 }
             } else {
@@ -384,7 +439,11 @@ pub fn with_writer(p: &Pkt, var: Variant, f: &mut dyn FnMut(&dyn RtcpPacketWrite
                         fbb!(builder, &fb)
                     }
                     Fci::Rpsi { pt, data, overrun } => {
-                        let fb = ch!(on; Rpsi::builder(), .payload_type(*pt), .native_data(&data[..], *overrun));
+                        let mut r = pr(Rpsi::builder(), on);
+                        if rs {
+                            r = ch!(on; r, .native_data(&[0xEEu8, 0xEE, 0xEE][..], 9), .payload_type(pt.wrapping_add(77)));
+                        }
+                        let fb = ch!(on; r, .payload_type(*pt), .native_data(&data[..], *overrun));
                         fbb!(builder, &fb)
                     }
                     Fci::Pli => {
